@@ -1,6 +1,6 @@
 CONSTANTS MaxFiles = 3
           MaxActions = 4
-          Styles = {0, 21}
+          Styles = {0}
           TieAll = FALSE
           EmitOn = FALSE
 INIT Init
